@@ -10,7 +10,7 @@ import (
 
 func init() {
 	register("C13", runC13, propMeta{
-		Explanation: "Decides, for every layering and every goroutine interleaving, the shape of ExecuteDAGModel: (G1, rule A4) inside the layer loop one WaitGroup per layer, Add(len(rules)) equal to the goroutines started over the whole per-layer rule slice, each goroutine executes its own copy of one element and reaches Done once; Wait() lies on every path from the fan-out to the next layer (the head of the enclosing loop), to any return and to any read of the error list; (G2) on every path from a fan-out to the next layer the error list is tested after the join and a non-empty list returns a new error; (G3) the per-layer slice is allocated inside the layer loop (so it starts empty for each layer) and filled only by appending, on the ok-edge, the hit of a comma-ok lookup of dag[i][j] in the container's name map, with i and j counting forward by one from 0 below len(dag) / len(dag[i]); a miss is skipped and the missing value never used; (G4) result-map rules of C11 for this function. Holds under every schedule because only the WaitGroup contract and program order are used. Not decided: timing, rule bodies. The pool's DAG method calls the engine method of its own name with its own arguments (G6).",
+		Explanation: "Decides, for every layering and every goroutine interleaving, the shape of ExecuteDAGModel: (G1, rule A4) inside the layer loop one WaitGroup per layer, Add(len(rules)) equal to the goroutines started over the whole per-layer rule slice, each goroutine executes its own copy of one element and reaches Done once; Wait() lies on every path from the fan-out to the next layer (the head of the enclosing loop), to any return and to any read of the error list; (G2) on every path from a fan-out to the next layer the error list is tested after the join and a non-empty list returns a new error; (G3) the per-layer slice is allocated inside the layer loop (so it starts empty for each layer) and filled only by appending, on the ok-edge, the hit of a comma-ok lookup of dag[i][j] in the container's name map, with i and j counting forward by one from 0 below len(dag) / len(dag[i]); a miss is skipped and the missing value never used; (G4) result-map rules of C11 for this function. Holds under every schedule because only the WaitGroup contract and program order are used. Not decided: timing, rule bodies. The pool's DAG method calls the engine method of its own name with its own arguments (G6). (G7) a faulting rule fails. (G8) the sentinels of break and continue are compared by the loop statements alone: the engine looks at a rule's error only to see whether there is one.",
 		Assumptions: []string{"sync.WaitGroup contract", "RuleEntity.Execute returns after the rule finished"},
 		Trusted:     commonTrusted,
 	})
